@@ -175,8 +175,7 @@ def oracle_selftest(e, rng):
         if np.isclose(a, e["face"][k], rtol=1e-7, atol=1e-10):
             REC.ok("C06.oracle_selftest_clipping")
         else:
-            REC.fail("C06.oracle_error", {"problem": "qhull face area disagrees with half-plane clipping", "pair": list(k),
-                                          "qhull": e["face"][k], "clipping": a})
+            REC.harness_problem("C06 oracle: qhull face area disagrees with half-plane clipping", {"pair": list(k), "qhull": e["face"][k], "clipping": a})
 
 
 def drive(PositionGrid, alg, N, text, rng):
@@ -204,6 +203,8 @@ def drive(PositionGrid, alg, N, text, rng):
 
 RADIAL = ["[0.2, 0.3]", "[0.15]", "[0.1, 0.2, 0.3]", "[0.1, 0.15, 0.4]", "linspace(0.2, 0.5, 4)", "[0.05, 0.3, 0.35, 0.9]"]
 # thin shells: radial spacing 1e-3 of the lateral cell size -> lateral faces are rectangles of aspect ratio ~1000 (finding F16)
+# thick shells, picometre and micrometre scales, many shells, pairs of nearly coincident shells
+HOSTILE = ["[0.1, 10]", "[0.001, 0.002, 0.004]", "[100, 150, 300]", "linspace(0.2, 0.4, 10)", "[0.2, 0.2001, 0.4, 0.4002]", "range(1, 3, 0.25)"]
 THIN = ["[1, 1.0005, 1.001]", "[0.5, 0.501, 0.502]", "[0.3, 0.3002]"]
 
 
@@ -219,6 +220,8 @@ def configs(tier):
         for alg, N in (("ico", 42), ("randomS", 30), ("cube3D", 26), ("ico", 20)):
             for t in THIN:
                 out.append((alg, N, t))
+        for k, (alg, N) in enumerate((("ico", 20), ("randomS", 42), ("cube3D", 8), ("ico", 80), ("randomS", 8), ("cube3D", 42))):
+            out.append((alg, N, HOSTILE[k]))
     else:
         for alg in ("ico", "cube3D", "randomS"):
             for N in range(4, 61):
@@ -229,6 +232,9 @@ def configs(tier):
         for alg in ("ico", "cube3D", "randomS"):
             for N in (8, 12, 20, 26, 30, 42, 60):
                 for t in THIN:
+                    out.append((alg, N, t))
+            for N in (8, 20, 42, 80, 100, 162):
+                for t in HOSTILE:
                     out.append((alg, N, t))
     return out
 
